@@ -8,8 +8,15 @@
                    taken mu: c is open but unknown to the counter)
      Count c       the accept loop's critical section for c:
                        mu.Lock(); active++; disarm(); mu.Unlock(); wg.Add(1); go serve(c)
+     Start c       c's goroutine: s.notifyTransport(kind, nil) returned nil (the
+                   serve-start hook accepted, or the transport was already bound);
+                   the serve loop begins.  A connection whose hook call FAILS has
+                   no Start: serveUnixConn / serveTcpConn return at once and the
+                   goroutine goes straight to Done.  The verdict sequence of the
+                   hook is therefore part of the schedule (which connections get
+                   a Start), and every theorem quantifies over it.
      Serve c       one serveOne iteration of c's goroutine on c's own reader /
-                   writer / shm cache (Part 2)
+                   writer / shm cache (Part 2); only after Start c
      Done c        c's goroutine after its serve loop ended and c.Close():
                        mu.Lock(); active--; if active == 0 && idleTimeout > 0 && !shutdown { arm(idleTimeout) }; mu.Unlock(); wg.Done()
      TimerFire g   the runtime expires timer g (time.AfterFunc): its callback
@@ -50,7 +57,7 @@ Open Scope N_scope.
 Definition conn := nat.
 
 Inductive ev :=
-| AcceptRet (c : conn) | Count (c : conn) | Serve (c : conn) | Done (c : conn)
+| AcceptRet (c : conn) | Count (c : conn) | Start (c : conn) | Serve (c : conn) | Done (c : conn)
 | TimerFire (g : nat) | Callback (g : nat)
 | AcceptFail | FinalDisarm | Return.
 
@@ -76,6 +83,7 @@ Record st := {
   nextg : nat;
   (* ghost *)
   accepted : list conn; serving : list conn; finished : list conn;
+  started : list conn;                    (* the serve-start hook accepted: the serve loop runs *)
   clock : nat; armlog : list (nat * nat); last_count : nat; last_done : nat;
   late : option conn;
   sessions : list (conn * sess) }.
@@ -115,7 +123,7 @@ Definition init (k : cfg) : st :=
   {| active := 0%Z; tvar := if cf_idle k then Some 0%nat else None; shutdown := false; wg := 0%Z;
      closed := false; looppend := None; ph := PAccept;
      pendt := if cf_idle k then [0%nat] else []; firedt := []; nextg := if cf_idle k then 1%nat else 0%nat;
-     accepted := []; serving := []; finished := [];
+     accepted := []; serving := []; finished := []; started := [];
      clock := 0; armlog := if cf_idle k then [(0%nat, 0%nat)] else []; last_count := 0; last_done := 0;
      late := None; sessions := [] |}.
 
@@ -134,7 +142,7 @@ Definition step (k : cfg) (s : st) (e : ev) : option st :=
       then Some {| active := active s; tvar := tvar s; shutdown := shutdown s; wg := wg s;
                    closed := closed s; looppend := Some c; ph := ph s;
                    pendt := pendt s; firedt := firedt s; nextg := nextg s;
-                   accepted := c :: accepted s; serving := serving s; finished := finished s;
+                   accepted := c :: accepted s; serving := serving s; finished := finished s; started := started s;
                    clock := n; armlog := armlog s; last_count := last_count s; last_done := last_done s;
                    late := late s; sessions := sessions s |}
       else None
@@ -145,21 +153,30 @@ Definition step (k : cfg) (s : st) (e : ev) : option st :=
             Some {| active := (active s + 1)%Z; tvar := None; shutdown := shutdown s; wg := (wg s + 1)%Z;
                     closed := closed s; looppend := None; ph := ph s;
                     pendt := disarm_pend s; firedt := firedt s; nextg := nextg s;
-                    accepted := accepted s; serving := c :: serving s; finished := finished s;
+                    accepted := accepted s; serving := c :: serving s; finished := finished s; started := started s;
                     clock := n; armlog := armlog s; last_count := n; last_done := last_done s;
                     late := late s;
                     sessions := (c, (C02.client_writes (cf_calls k c), [])) :: sessions s |}
           else None
       | None => None
       end
+  | Start c =>
+      if mem c (serving s) && negb (mem c (started s)) then
+        Some {| active := active s; tvar := tvar s; shutdown := shutdown s; wg := wg s;
+                closed := closed s; looppend := looppend s; ph := ph s;
+                pendt := pendt s; firedt := firedt s; nextg := nextg s;
+                accepted := accepted s; serving := serving s; finished := finished s; started := c :: started s;
+                clock := n; armlog := armlog s; last_count := last_count s; last_done := last_done s;
+                late := late s; sessions := sessions s |}
+      else None
   | Serve c =>
-      if mem c (serving s) then
+      if mem c (serving s) && mem c (started s) then
         match lookup c (sessions s) with
         | Some x =>
             Some {| active := active s; tvar := tvar s; shutdown := shutdown s; wg := wg s;
                     closed := closed s; looppend := looppend s; ph := ph s;
                     pendt := pendt s; firedt := firedt s; nextg := nextg s;
-                    accepted := accepted s; serving := serving s; finished := finished s;
+                    accepted := accepted s; serving := serving s; finished := finished s; started := started s;
                     clock := n; armlog := armlog s; last_count := last_count s; last_done := last_done s;
                     late := late s; sessions := update c (serve_sess (cf_gate k) x) (sessions s) |}
         | None => None
@@ -174,7 +191,7 @@ Definition step (k : cfg) (s : st) (e : ev) : option st :=
                 closed := closed s; looppend := looppend s; ph := ph s;
                 pendt := if rearm then nextg s :: disarm_pend s else pendt s;
                 firedt := firedt s; nextg := if rearm then S (nextg s) else nextg s;
-                accepted := accepted s; serving := remove1 c (serving s); finished := c :: finished s;
+                accepted := accepted s; serving := remove1 c (serving s); finished := c :: finished s; started := started s;
                 clock := n; armlog := if rearm then (nextg s, n) :: armlog s else armlog s;
                 last_count := last_count s; last_done := n;
                 late := late s; sessions := sessions s |}
@@ -184,7 +201,7 @@ Definition step (k : cfg) (s : st) (e : ev) : option st :=
         Some {| active := active s; tvar := tvar s; shutdown := shutdown s; wg := wg s;
                 closed := closed s; looppend := looppend s; ph := ph s;
                 pendt := remove_all g (pendt s); firedt := g :: firedt s; nextg := nextg s;
-                accepted := accepted s; serving := serving s; finished := finished s;
+                accepted := accepted s; serving := serving s; finished := finished s; started := started s;
                 clock := n; armlog := armlog s; last_count := last_count s; last_done := last_done s;
                 late := late s; sessions := sessions s |}
       else None
@@ -195,7 +212,7 @@ Definition step (k : cfg) (s : st) (e : ev) : option st :=
         Some {| active := active s; tvar := tvar s; shutdown := shutdown s || close; wg := wg s;
                 closed := closed s || close; looppend := looppend s; ph := ph s;
                 pendt := pendt s; firedt := remove1 g (firedt s); nextg := nextg s;
-                accepted := accepted s; serving := serving s; finished := finished s;
+                accepted := accepted s; serving := serving s; finished := finished s; started := started s;
                 clock := n; armlog := armlog s; last_count := last_count s; last_done := last_done s;
                 late := if close && negb (closed s) then looppend s else late s;
                 sessions := sessions s |}
@@ -205,7 +222,7 @@ Definition step (k : cfg) (s : st) (e : ev) : option st :=
       then Some {| active := active s; tvar := tvar s; shutdown := shutdown s; wg := wg s;
                    closed := closed s; looppend := looppend s; ph := PBroke;
                    pendt := pendt s; firedt := firedt s; nextg := nextg s;
-                   accepted := accepted s; serving := serving s; finished := finished s;
+                   accepted := accepted s; serving := serving s; finished := finished s; started := started s;
                    clock := n; armlog := armlog s; last_count := last_count s; last_done := last_done s;
                    late := late s; sessions := sessions s |}
       else None
@@ -215,7 +232,7 @@ Definition step (k : cfg) (s : st) (e : ev) : option st :=
           Some {| active := active s; tvar := None; shutdown := shutdown s; wg := wg s;
                   closed := closed s; looppend := looppend s; ph := PWait;
                   pendt := disarm_pend s; firedt := firedt s; nextg := nextg s;
-                  accepted := accepted s; serving := serving s; finished := finished s;
+                  accepted := accepted s; serving := serving s; finished := finished s; started := started s;
                   clock := n; armlog := armlog s; last_count := last_count s; last_done := last_done s;
                   late := late s; sessions := sessions s |}
       | _ => None
@@ -227,7 +244,7 @@ Definition step (k : cfg) (s : st) (e : ev) : option st :=
             Some {| active := active s; tvar := tvar s; shutdown := shutdown s; wg := wg s;
                     closed := true; looppend := looppend s; ph := PReturned;
                     pendt := pendt s; firedt := firedt s; nextg := nextg s;
-                    accepted := accepted s; serving := serving s; finished := finished s;
+                    accepted := accepted s; serving := serving s; finished := finished s; started := started s;
                     clock := n; armlog := armlog s; last_count := last_count s; last_done := last_done s;
                     late := late s; sessions := sessions s |}
           else None
@@ -237,6 +254,43 @@ Definition step (k : cfg) (s : st) (e : ev) : option st :=
 
 Definition exec (k : cfg) (s : st) (e : ev) : st := match step k s e with Some s' => s' | None => s end.
 Definition run (k : cfg) (s : st) (es : list ev) : st := fold_left (exec k) es s.
+
+(* ---------- a variant that counts late (NOT the code) -------------------------------
+   The same machine except that the accept loop does not count: active++ and
+   disarm() are done by the connection's goroutine when the serve-start hook
+   has accepted it (Start c), while Done c still decrements for EVERY
+   connection.  A connection the hook refuses is then decremented without ever
+   having been incremented. *)
+Definition step_late (k : cfg) (s : st) (e : ev) : option st :=
+  let n := S (clock s) in
+  match e with
+  | Count c =>
+      match looppend s with
+      | Some c' =>
+          if Nat.eqb c c' then
+            Some {| active := active s; tvar := tvar s; shutdown := shutdown s; wg := (wg s + 1)%Z;
+                    closed := closed s; looppend := None; ph := ph s;
+                    pendt := pendt s; firedt := firedt s; nextg := nextg s;
+                    accepted := accepted s; serving := c :: serving s; finished := finished s; started := started s;
+                    clock := n; armlog := armlog s; last_count := n; last_done := last_done s;
+                    late := late s;
+                    sessions := (c, (C02.client_writes (cf_calls k c), [])) :: sessions s |}
+          else None
+      | None => None
+      end
+  | Start c =>
+      if mem c (serving s) && negb (mem c (started s)) then
+        Some {| active := (active s + 1)%Z; tvar := None; shutdown := shutdown s; wg := wg s;
+                closed := closed s; looppend := looppend s; ph := ph s;
+                pendt := disarm_pend s; firedt := firedt s; nextg := nextg s;
+                accepted := accepted s; serving := serving s; finished := finished s; started := c :: started s;
+                clock := n; armlog := armlog s; last_count := last_count s; last_done := last_done s;
+                late := late s; sessions := sessions s |}
+      else None
+  | _ => step k s e
+  end.
+Definition exec_late (k : cfg) (s : st) (e : ev) : st := match step_late k s e with Some s' => s' | None => s end.
+Definition run_late (k : cfg) (s : st) (es : list ev) : st := fold_left (exec_late k) es s.
 
 Definition is_returned (s : st) : bool := match ph s with PReturned => true | _ => false end.
 Definition open_conns (s : st) : list conn :=
@@ -255,11 +309,14 @@ Record input := {
   i_unix : bool;                          (* RunUnix (true) / RunTcp *)
   i_idle : N;                             (* idleTimeout in ms, 0 = none *)
   i_gate : bool;
+  i_hook : list bool;                     (* serve-start hook script: verdict of its j-th invocation, true = it FAILS;
+                                             past the end it succeeds; it is not invoked any more once it succeeded *)
   i_conns : list (list C02.call);         (* connection c sends nth c *)
   i_ops : list op }.
 
 Record probe := {
   p_ok : bool;                            (* Open: the dial succeeded; Talk / Close: the connection was open *)
+  p_refused : bool;                       (* Open: the hook refused the connection and the server closed it unserved *)
   p_ret : bool;                           (* Run has returned *)
   p_file : option N }.                    (* Unix: permission bits of the socket file, None = no such file *)
 
@@ -275,12 +332,17 @@ Definition cfg_of (i : input) : cfg :=
   {| cf_idle := negb (i_idle i =? 0); cf_gencheck := true; cf_gate := i_gate i;
      cf_calls := fun c => nth c (i_conns i) [] |}.
 
-Record tstate := { t_s : st; t_now : N; t_dl : N; t_talked : list conn }.
+Record tstate := {
+  t_s : st; t_now : N; t_dl : N; t_talked : list conn;
+  t_hookn : nat;                          (* invocations of the serve-start hook so far *)
+  t_bound : bool }.                       (* it has succeeded: notifyTransport no longer calls it *)
 
 Definition tinit (i : input) : tstate :=
-  {| t_s := init (cfg_of i); t_now := 0; t_dl := N.max (i_idle i) grace_floor_ms; t_talked := [] |}.
+  {| t_s := init (cfg_of i); t_now := 0; t_dl := N.max (i_idle i) grace_floor_ms; t_talked := [];
+     t_hookn := 0; t_bound := false |}.
 
 Definition is_open (s : st) (c : conn) : bool := mem c (serving s).
+Definition is_live (s : st) (c : conn) : bool := mem c (serving s) && mem c (started s).
 
 (* enough serveOne iterations to read everything the client of c ever writes *)
 Definition talk_events (k : cfg) (c : conn) : list ev :=
@@ -289,34 +351,49 @@ Definition talk_events (k : cfg) (c : conn) : list ev :=
 (* the loop thread and the callback run on their own as soon as they can *)
 Definition settle (k : cfg) (s : st) : st := run k s [AcceptFail; FinalDisarm; Return].
 
-Definition top (i : input) (t : tstate) (o : op) : tstate * bool :=
+Definition set_s (t : tstate) (s : st) : tstate :=
+  {| t_s := s; t_now := t_now t; t_dl := t_dl t; t_talked := t_talked t; t_hookn := t_hookn t; t_bound := t_bound t |}.
+
+(* the client (or, for a refused connection, the server) closes c: the goroutine's last section *)
+Definition close_core (i : input) (t : tstate) (c : conn) : tstate :=
+  let s := t_s t in
+  let s' := run (cfg_of i) s [Done c] in
+  {| t_s := s'; t_now := t_now t;
+     t_dl := if Nat.eqb (nextg s) (nextg s') then t_dl t else t_now t + i_idle i;
+     t_talked := t_talked t; t_hookn := t_hookn t; t_bound := t_bound t |}.
+
+Definition top (i : input) (t : tstate) (o : op) : tstate * (bool * bool) :=
   let k := cfg_of i in
   let s := t_s t in
   match o with
   | Open c =>
       let ok := negb (closed s) && negb (mem c (accepted s)) in
-      ({| t_s := run k s [AcceptRet c; Count c]; t_now := t_now t; t_dl := t_dl t; t_talked := t_talked t |}, ok)
+      let refuse := ok && negb (t_bound t) && nth (t_hookn t) (i_hook i) false in
+      let t1 := if ok
+                then (if refuse then close_core i (set_s t (run k s [AcceptRet c; Count c])) c
+                      else set_s t (run k s [AcceptRet c; Count c; Start c]))
+                else t in
+      ({| t_s := t_s t1; t_now := t_now t1; t_dl := t_dl t1; t_talked := t_talked t1;
+          t_hookn := if ok && negb (t_bound t) then S (t_hookn t) else t_hookn t;
+          t_bound := t_bound t || (ok && negb refuse) |}, (ok, refuse))
   | Talk cs =>
-      let live := filter (is_open s) cs in
+      let live := filter (is_live s) cs in
       ({| t_s := run k s (concat (map (talk_events k) live)); t_now := t_now t; t_dl := t_dl t;
-          t_talked := live ++ t_talked t |},
-       forallb (is_open s) cs)
-  | Close c =>
-      let s' := run k s [Done c] in
-      ({| t_s := s'; t_now := t_now t;
-          t_dl := if Nat.eqb (nextg s) (nextg s') then t_dl t else t_now t + i_idle i;
-          t_talked := t_talked t |}, is_open s c)
+          t_talked := live ++ t_talked t; t_hookn := t_hookn t; t_bound := t_bound t |},
+       (forallb (is_open s) cs, false))
+  | Close c => (close_core i t c, (is_open s c, false))
   | Wait d =>
       let now' := t_now t + d in
       let s' := match pendt s with
                 | g :: _ => if t_dl t <=? now' then settle k (run k s [TimerFire g; Callback g]) else s
                 | [] => s
                 end in
-      ({| t_s := s'; t_now := now'; t_dl := t_dl t; t_talked := t_talked t |}, true)
+      ({| t_s := s'; t_now := now'; t_dl := t_dl t; t_talked := t_talked t; t_hookn := t_hookn t; t_bound := t_bound t |},
+       (true, false))
   end.
 
-Definition probe_of (i : input) (t : tstate) (ok : bool) : probe :=
-  {| p_ok := ok; p_ret := is_returned (t_s t);
+Definition probe_of (i : input) (t : tstate) (ok : bool * bool) : probe :=
+  {| p_ok := fst ok; p_refused := snd ok; p_ret := is_returned (t_s t);
      p_file := if i_unix i then (if closed (t_s t) then None else Some sock_mode) else None |}.
 
 Fixpoint trun (i : input) (t : tstate) (ops : list op) : tstate * list probe :=
@@ -338,7 +415,7 @@ Definition model (i : input) : obs :=
                     (conn_ids i) |}.
 
 Definition probe_eqb (a b : probe) : bool :=
-  Bool.eqb (p_ok a) (p_ok b) && Bool.eqb (p_ret a) (p_ret b) && opt_eqb N.eqb (p_file a) (p_file b).
+  Bool.eqb (p_ok a) (p_ok b) && Bool.eqb (p_refused a) (p_refused b) && Bool.eqb (p_ret a) (p_ret b) && opt_eqb N.eqb (p_file a) (p_file b).
 
 Definition streams_eqb := list_eqb stream_eqb.
 
@@ -358,38 +435,50 @@ Record mon := {
   m_open : list conn; m_used : list conn; m_now : N;
   m_zero_at : N;                          (* since when no connection is open *)
   m_need : N;                             (* how long that has to last *)
-  m_stopped : bool }.
+  m_stopped : bool;
+  m_hookn : nat; m_bound : bool }.        (* the serve-start hook: invocations so far, has succeeded *)
 
 Definition minit (i : input) : mon :=
-  {| m_open := []; m_used := []; m_now := 0; m_zero_at := 0; m_need := N.max (i_idle i) grace_floor_ms; m_stopped := false |}.
+  {| m_open := []; m_used := []; m_now := 0; m_zero_at := 0; m_need := N.max (i_idle i) grace_floor_ms; m_stopped := false;
+     m_hookn := 0; m_bound := false |}.
 
-Definition mstep (i : input) (m : mon) (o : op) : mon * bool :=
+Definition mopen (m : mon) (c : conn) : mon :=
+  {| m_open := c :: m_open m; m_used := c :: m_used m; m_now := m_now m; m_zero_at := m_zero_at m;
+     m_need := m_need m; m_stopped := m_stopped m; m_hookn := m_hookn m; m_bound := m_bound m |}.
+
+Definition mclose (i : input) (m : mon) (c : conn) : mon :=
+  let o' := remove1 c (m_open m) in
+  {| m_open := o'; m_used := m_used m; m_now := m_now m;
+     m_zero_at := match o' with [] => m_now m | _ => m_zero_at m end;
+     m_need := match o' with [] => i_idle i | _ => m_need m end;
+     m_stopped := m_stopped m; m_hookn := m_hookn m; m_bound := m_bound m |}.
+
+(* A connection the hook refuses was open for an instant (the server closes it
+   unserved): the period with no open connection starts again at that instant,
+   with the idle timeout (no longer the startup grace); it never stays open. *)
+Definition mstep (i : input) (m : mon) (o : op) : mon * (bool * bool) :=
   match o with
   | Open c =>
-      if negb (m_stopped m) && negb (mem c (m_used m))
-      then ({| m_open := c :: m_open m; m_used := c :: m_used m; m_now := m_now m; m_zero_at := m_zero_at m;
-               m_need := m_need m; m_stopped := m_stopped m |}, true)
-      else (m, false)
-  | Talk cs => (m, forallb (fun c => mem c (m_open m)) cs)
-  | Close c =>
-      if mem c (m_open m) then
-        let o' := remove1 c (m_open m) in
-        ({| m_open := o'; m_used := m_used m; m_now := m_now m;
-            m_zero_at := match o' with [] => m_now m | _ => m_zero_at m end;
-            m_need := match o' with [] => i_idle i | _ => m_need m end;
-            m_stopped := m_stopped m |}, true)
-      else (m, false)
+      let ok := negb (m_stopped m) && negb (mem c (m_used m)) in
+      let refuse := ok && negb (m_bound m) && nth (m_hookn m) (i_hook i) false in
+      let m1 := if ok then (if refuse then mclose i (mopen m c) c else mopen m c) else m in
+      ({| m_open := m_open m1; m_used := m_used m1; m_now := m_now m1; m_zero_at := m_zero_at m1;
+          m_need := m_need m1; m_stopped := m_stopped m1;
+          m_hookn := if ok && negb (m_bound m) then S (m_hookn m) else m_hookn m;
+          m_bound := m_bound m || (ok && negb refuse) |}, (ok, refuse))
+  | Talk cs => (m, (forallb (fun c => mem c (m_open m)) cs, false))
+  | Close c => if mem c (m_open m) then (mclose i m c, (true, false)) else (m, (false, false))
   | Wait d =>
       let now' := m_now m + d in
       let expire := negb (i_idle i =? 0) && negb (m_stopped m)
                     && match m_open m with [] => true | _ => false end
                     && (m_zero_at m + m_need m <=? now') in
       ({| m_open := m_open m; m_used := m_used m; m_now := now'; m_zero_at := m_zero_at m;
-          m_need := m_need m; m_stopped := m_stopped m || expire |}, true)
+          m_need := m_need m; m_stopped := m_stopped m || expire; m_hookn := m_hookn m; m_bound := m_bound m |}, (true, false))
   end.
 
-Definition mprobe (i : input) (m : mon) (ok : bool) : probe :=
-  {| p_ok := ok; p_ret := m_stopped m;
+Definition mprobe (i : input) (m : mon) (ok : bool * bool) : probe :=
+  {| p_ok := fst ok; p_refused := snd ok; p_ret := m_stopped m;
      p_file := if i_unix i then (if m_stopped m then None else Some sock_mode) else None |}.
 
 Fixpoint mrun (i : input) (m : mon) (ops : list op) : list probe :=
@@ -405,7 +494,22 @@ Definition mon_safe (m : mon) : bool :=
 (* every connection's view is what the same calls get alone; in_scope is the C02 premise *)
 Definition all_in_scope (i : input) : bool := forallb (forallb C02.in_scope) (i_conns i).
 
+(* The property is a SAFETY statement (the listener stops ONLY after ..., never
+   while one is open), so an observed probe [a] is judged against the monitor's
+   probe [e] one way: Run has returned only if the monitor has stopped; while
+   the monitor has not stopped a dial succeeds, an open connection is usable and
+   the Unix socket file is there with mode 0600, and the hook's refusals are as
+   scripted (all of this only while the monitor has not stopped).
+   (That the listener DOES stop when the period has elapsed is liveness: it is
+   part of the model and is compared by [obs_eqb], not judged here.) *)
+Definition probe_safe (a e : probe) : bool :=
+  implb (p_ret a) (p_ret e)
+  && implb (p_ok e) (p_ok a)
+  && (negb (p_ok e) || Bool.eqb (p_refused a) (p_refused e))
+  && match p_file e with Some mode => opt_eqb N.eqb (p_file a) (Some mode) | None => true end.
+
 Definition spec_ok (i : input) (o : obs) : bool :=
-  list_eqb probe_eqb (o_probes o) (mrun i (minit i) (i_ops i))
+  Nat.eqb (length (o_probes o)) (length (i_ops i))
+  && list_eqb probe_safe (o_probes o) (mrun i (minit i) (i_ops i))
   && (negb (all_in_scope i) || list_eqb streams_eqb (o_views o) (o_alone o))
   && Nat.eqb (length (o_views o)) (length (i_conns i)).
